@@ -1,6 +1,7 @@
 package main
 
 import (
+	"encoding/json"
 	"fmt"
 	"time"
 
@@ -29,6 +30,12 @@ func baseMessages(f *families) []baseMsg {
 		x, _ := ts.build(ix)
 		b, err := types.MarshalTransaction(x)
 		add("tx", fmt.Sprintf("MarshalTransaction(tx#%d)", ix), b, err)
+	}
+	js := txJsonSpace()
+	for _, ix := range three(js.total()) {
+		x, _ := js.build(ix)
+		b, err := json.Marshal(x.ToTxJson())
+		add("txjson", fmt.Sprintf("json(ToTxJson(txjson#%d))", ix), b, err)
 	}
 	ls := txsSpace()
 	for _, ix := range [3]int64{2, ls.total() / 2, ls.total() - 1} {
@@ -260,6 +267,12 @@ func (r *runner) runSpaceCase(name string, idx int64) bool {
 		groupSpace(false).runOne(r, idx)
 	case "block":
 		blockSpace().runOne(r, idx)
+	case "tx-strings":
+		txStringSpace().runOne(r, idx)
+	case "txjson":
+		txJsonSpace().runOne(r, idx)
+	case "fix-txjson":
+		fixTxJsonSpace().runOne(r, idx)
 	case "fix-tx":
 		fixTxSpace().runOne(r, idx)
 	case "fix-header":
@@ -291,6 +304,9 @@ func (r *runner) roundTrips(big bool) bool {
 		ls, bs := txsSpace(), blockSpace()
 		ftx, fh, fg := fixTxSpace(), fixHeaderSpace(), fixGroupSpace()
 		do(ftx.name, ftx.total(), func() bool { return ftx.runAll(r) })
+		fj, sx := fixTxJsonSpace(), txStringSpace()
+		do(fj.name, fj.total(), func() bool { return fj.runAll(r) })
+		do(sx.name, sx.total(), func() bool { return sx.runAll(r) })
 		do(fh.name, fh.total(), func() bool { return fh.runAll(r) })
 		do(fg.name, fg.total(), func() bool { return fg.runAll(r) })
 		do(bs.name, bs.total(), func() bool { return bs.runAll(r) })
@@ -316,6 +332,8 @@ func (r *runner) roundTrips(big bool) bool {
 	if !c.Thorough() {
 		ts, gs, hs = txSpaceQuick(), groupSpaceQuick(), headerSpaceQuick()
 	}
+	tj := txJsonSpace()
+	do(tj.name, tj.total(), func() bool { return tj.runAll(r) })
 	do(gs.name, gs.total(), func() bool { return gs.runAll(r) })
 	do(ts.name, ts.total(), func() bool { return ts.runAll(r) })
 	do(hs.name, hs.total(), func() bool { return hs.runAll(r) })
